@@ -194,6 +194,35 @@ let run line =
     let build pad = build_response_resolved variant (ovf ()) (nat_of_int pad) (ni xid) (ip_of ci) (bx hw) (ni mt) (ip_of yip) (ip_of router) (ip_of sid)
          (bx mask) (List.map ip_of dns) (ni lease) routes extra in
     res_frame (fun f -> sum4 f ^ " gp=" ^ gp_full (from f 28)) (build (pad_of build))
+  | "resolve4" :: xid :: ci :: hw :: mt :: addr :: cgw :: cmask :: rest ->
+    let parsed t = match split_on '/' t with [_; p] -> p | _ -> failwith "parsed" in
+    let ipo t = ip_of (parsed t) in
+    let (n, rest) = (match rest with n :: r -> (int_of_string n, r) | [] -> failwith "n") in
+    let (cdns, rest) = take n rest in
+    let (pgw, psid, unn, lease, rest) = (match rest with a :: b :: c :: d :: r -> (a, b, c, d, r) | _ -> failwith "prof") in
+    let (n, rest) = (match rest with n :: r -> (int_of_string n, r) | [] -> failwith "n") in
+    let (pdns, rest) = take n rest in
+    let (np, rest) = (match rest with n :: r -> (int_of_string n, r) | [] -> failwith "n") in
+    let rec pools k rest acc = if k = 0 then List.rev acc else
+        (match rest with
+         | cidr :: gw :: no :: r ->
+           let (os, r) = take (int_of_string no) r in
+           let net = (match parsed cidr with "nil" -> None | x -> (match split_on ':' x with [a; m] -> Some (bx a, bx m) | _ -> failwith "cidr")) in
+           let opts = List.map (fun t -> match split_on '/' t with
+               | [a; pl] -> let tag = ni (List.hd (split_on ',' a)) in (tag, if pl = "nil" then None else Some (bx pl))
+               | _ -> failwith "opt") os in
+           pools (k-1) r ({ pl_net = net; pl_gw_set = (List.hd (split_on '/' gw) <> "-"); pl_gw = ipo gw; pl_opts = opts } :: acc)
+         | _ -> failwith "pool") in
+    let pf = { pf_gw = ipo pgw; pf_sid = ipo psid; pf_dns = List.map ipo pdns; pf_unnumbered = (unn = "1"); pf_lease = ni lease;
+               pf_pools = pools np rest [] } in
+    let cx = { cx_addr = bx addr; cx_gw = ip_of cgw; cx_mask = (if cmask = "nil" then None else Some (bx cmask)); cx_dns = List.map ip_of cdns } in
+    let r = resolve_v4 cx pf in
+    let sum = Printf.sprintf "r=%s s=%s m=%s dns=%s lease=%d nr=%d opts=%s" (hxo r.rs_router) (hxo r.rs_sid) (hx r.rs_mask)
+        (if r.rs_dns = [] then "-" else String.concat "," (List.map hxo r.rs_dns)) (int_of_n r.rs_lease) (List.length r.rs_routes)
+        (if r.rs_opts = [] then "-" else String.concat "." (List.map (fun (c, d) -> string_of_int (int_of_n c) ^ ":" ^ hx d) r.rs_opts)) in
+    let build pad = resolve_and_reply variant (ovf ()) (nat_of_int pad) (ni xid) (ip_of ci) (bx hw) (ni mt) cx pf in
+    cur_impl := (match String.index_opt !cur_impl ';' with Some i when i + 2 <= String.length !cur_impl -> String.sub !cur_impl (i + 2) (String.length !cur_impl - i - 2) | _ -> !cur_impl);
+    sum ^ " ; " ^ res_frame (fun f -> sum4 f ^ " gp=" ^ gp_full (from f 28)) (build (pad_of build))
   | "ser6" :: ty :: tx :: cl :: sv :: na :: pd :: nd :: rest ->
     let (dns, rest) = take (int_of_string nd) rest in
     let (st, rest) = match rest with s :: r -> (s, r) | [] -> ("nil", []) in
